@@ -236,9 +236,11 @@ def harnesses(tier):
 
 
 def setup(tier):
+    global D
     wd.load()
     dq = wd.mod("watchdog.utils.delayed_queue")
     ib = wd.mod("watchdog.observers.inotify_buffer")
+    D = float(getattr(ib.InotifyBuffer, "delay", D))    # the pairing delay is the library's, not ours
     C = dq.DelayedQueue
     desc = vsched.instrument(line_modules=[ib, dq, wd.mod("watchdog.utils")], instr_functions=[(C, "get"), (C, "remove")],
                              exclude=("BaseThread.__init__", "BaseThread.stopped_event", "load_module", "load_class",
